@@ -89,3 +89,70 @@ def replay_serde_truncated(d):
             return True, f"decode({list(data)[:24]}..) raised only after {dt:.1f}s: work not bounded by input length"
         return False, f"raised {type(e).__name__}"
     return True, f"decode({list(data)}) returned {dec!r} instead of raising ({d.get('why', '')})"
+
+
+def replay_layout(d):
+    """Real PackedEncoder on the concrete schema (from a stale encoder state) vs. the reference tiling."""
+    from fcp.encoding import make_encoder, PackedEncoderContext
+
+    from .layoutref import leaf_list
+
+    sch = _schema(d)
+    fcp = _fcp(d)
+    impl = [i for i in fcp.impls if i.protocol == "can"][0]
+    enc = make_encoder("packed", fcp, PackedEncoderContext().with_unroll_arrays(d["unroll"]))
+    enc.bitstart = d.get("pre_bitstart", 0)
+    enc.encoding = ["<stale>"]
+    try:
+        out = enc.generate(impl)
+    except Exception as e:
+        return True, f"generate raised {type(e).__name__}: {e}"
+    ref = leaf_list(sch, d["top"], d["unroll"])
+    got = [(str(v.name), v.bitstart, v.bitlength) for v in out]
+    pos, exp = 0, []
+    for hn, bn, t, w in ref:
+        exp.append((hn, pos, w))
+        pos += w
+    if got != exp:
+        return True, f"layout {got} != reference {exp}"
+    sigs = {s: kv for s, kv in d.get("signals", [])}
+    for v, (hn, bn, t, w) in zip(out, ref):
+        e = sigs.get(hn.split("::")[-1], {})
+        if dict(v.extended_data) != e or v.endianess != (e.get("endianess") or "little"):
+            return True, f"options of leaf {hn}: {v.extended_data}/{v.endianess}, expected {e}"
+    return False, "layout equals the reference tiling"
+
+
+def replay_verifier(d):
+    """Real verifier on the concrete tree vs. the specification evaluated on the same concrete tree."""
+    import importlib
+
+    import z3
+
+    from .checks import verifier_checks as vc
+    from .pysym import AtomSpace
+
+    class CS:
+        def __init__(self):
+            AtomSpace()
+
+        def A(self, n):
+            return d["names"][n]
+
+        def I(self, n, lo, hi):
+            return d["ints"][n]
+
+    desc = vc.permute(vc.skeletons("quick")[d["skeleton"]](CS()), d["perm"])
+    spec = z3.is_true(z3.simplify(vc.SPECS[d["plugin"]](desc)))
+    from fcp.verifier import make_general_verifier
+
+    v = make_general_verifier()
+    if vc.PLUGINS[d["plugin"]]:
+        importlib.import_module(vc.PLUGINS[d["plugin"]]).Generator().register_checks(v)
+    try:
+        ok = v.verify(vc.build(desc)).is_ok()
+    except Exception as e:
+        return True, f"verify raised {type(e).__name__}: {e} (specification: {'well' if spec else 'ill'}-formed) tree={desc}"
+    if ok != spec:
+        return True, f"verify -> {'Ok' if ok else 'Err'}, specification -> {'well' if spec else 'ill'}-formed; tree={desc}"
+    return False, f"verdict {ok} equals specification"
